@@ -28,6 +28,8 @@ structure Sane (s : Sys π ν) : Prop where
   free_nodup : s.free.Nodup
   ids_lt : ∀ n ∈ s.ids, n < s.next
   free_lt : ∀ f ∈ s.free, f < s.next
+  /-- Python dict: the keys of `attrs["nodes"]` are unique -/
+  nodes_nodup : (dkeys s.nodes).Nodup
 
 namespace Sys
 
